@@ -284,3 +284,46 @@ fn kx_owned_to_mut_keeps_owner_for_other_views() {
     drop(c);
     assert!(unsafe { OWNER_DROPS } == 1);
 }
+
+// @ob props=C01,C14,C09 tier=quick kind=Kinf fns=Bytes::as_slice,Deref_for_Bytes::deref,AsRef<[u8]>_for_Bytes::as_ref,Borrow<[u8]>_for_Bytes::borrow,Bytes::len,Bytes::is_empty,Buf_for_Bytes::chunk,Buf_for_Bytes::remaining
+#[kani::proof]
+fn kx_bytes_as_slice_is_the_view() {
+    // the contract every Verus unit imports for Bytes: all slice accessors return exactly (ptr, len)
+    let (b, g) = any_arc();
+    let p = g.buf as usize + g.off;
+    let s = b.as_slice();
+    assert!(s.as_ptr() as usize == p && s.len() == g.len);
+    let d: &[u8] = &b;
+    let a: &[u8] = b.as_ref();
+    let w: &[u8] = core::borrow::Borrow::borrow(&b);
+    let c: &[u8] = Buf::chunk(&b);
+    assert!(d.as_ptr() as usize == p && d.len() == g.len && a.as_ptr() as usize == p && a.len() == g.len);
+    assert!(w.as_ptr() as usize == p && w.len() == g.len && c.as_ptr() as usize == p && c.len() == g.len);
+    assert!(b.len() == g.len && b.is_empty() == (g.len == 0) && Buf::remaining(&b) == g.len);
+    core::mem::forget(b);
+}
+
+// @ob props=C01,C07 tier=quick kind=Kbounded bound="inputs of <= 4 bytes" fns=From<String>for_Bytes,From<&'static_str>for_Bytes,From<&'static[u8]>for_Bytes,FromIterator<u8>for_Bytes,Default_for_Bytes,IntoIterator_for_&Bytes
+#[kani::proof]
+#[kani::unwind(6)]
+#[kani::stub(release_shared, unreachable_release_misc)]
+fn kx_bytes_trivial_constructors() {
+    let src: [u8; 4] = kani::any();
+    kani::assume(src[0] < 0x80 && src[1] < 0x80 && src[2] < 0x80 && src[3] < 0x80);
+    let n: usize = kani::any();
+    kani::assume(n <= 4);
+    let st: &'static [u8; 4] = unsafe { &*(&src as *const [u8; 4]) };
+    let s: &'static str = unsafe { core::str::from_utf8_unchecked(&st[..n]) };
+    let i: usize = kani::any();
+    let which: u8 = kani::any();
+    let b = match which {
+        0 => { let b = Bytes::from(s); assert!(is_static(&b) && b.ptr as usize == st.as_ptr() as usize); b }
+        1 => { let b = Bytes::from(&st[..n]); assert!(is_static(&b) && b.ptr as usize == st.as_ptr() as usize); b }
+        2 => Bytes::from(String::from(s)),
+        3 => { let b = Bytes::default(); assert!(b.len == 0); core::mem::forget(b); return; }
+        _ => src[..n].iter().copied().collect::<Bytes>(),
+    };
+    assert!(b.len == n);
+    if i < n { assert!(b[i] == src[i]); }
+    core::mem::forget(b);
+}
